@@ -92,6 +92,39 @@ def law_check(v, out, st):
                          dead_zone_edge=dlim)
 
 
+def probe_check(v, H, out, st):
+    """Direct calls of compute_torque / compute_electric_current on user-set
+    (speed, duty), with the live torque optionally re-expressed in another
+    unit in between."""
+    mot = v.mot
+    dlim = rm.motor_dlim(mot)
+    for rec in H['ops']:
+        if rec['op'] != 'motor_probe':
+            continue
+        for q, r in zip(v.scn['schedule'][rec['i']]['points'], rec['points']):
+            st['probe_points'] += 1
+            if q.get('relabel'):
+                st['probe_relabelled'] += 1
+            if r['exc'] is not None:
+                out.append(Violation(PROP, f"probe/raises-{r['exc'][0]}", {
+                    'point': q, 'message': r['exc'][1]}))
+                return
+            ref = rm.motor_torque(mot, r['w'], r['pwm'])
+            ts, cs = rm.motor_scales(mot, r['w'], r['pwm'])
+            if not close(r['T'], ref, scale=ts):
+                out.append(Violation(PROP, 'probe/torque-law', {
+                    'point': q, 'recorded': r['T'], 'reference': ref}))
+                return
+            if 'i' in r and dlim is not None:
+                refc = rm.motor_current(mot, r['w'], r['pwm'])
+                if not close(r['i'], refc, scale=cs):
+                    out.append(Violation(PROP, 'probe/current-law' + (
+                        '/torque-in-another-unit' if q.get('relabel') else ''), {
+                        'point': q, 'recorded': r['i'], 'reference': refc,
+                        'torque': r['T']}))
+                    return
+
+
 def run(scn, H, execu):
     v = View(scn, H)
     out = []
@@ -99,6 +132,7 @@ def run(scn, H, execu):
     if not v.ok:
         return H, out, st
     law_check(v, out, st)
+    probe_check(v, H, out, st)
     # mirror run: only meaningful where the documented law is odd in (D, w):
     # motors with current data, full-density scripted duty history
     rules = scn.get('rules', [])
